@@ -9,6 +9,9 @@ import (
 // Ref is a reference to a task from deps or from a task-call command.
 type Ref struct {
 	Task string
+	// As: the name written in the Taskfile for this reference when it differs from the task's
+	// canonical name (an alias, or a name matched by the task's wildcard pattern)
+	As string
 	// VP: constant instance key passed to deduplicated targets ("=" / "=k1"); empty means
 	// the callee's VP is derived from the caller's ("<caller VP>><caller>.<site>").
 	VP   string
@@ -29,6 +32,8 @@ type For struct {
 // C is one cmds entry.
 type C struct {
 	Exit        int  // exit code of the probe (0 = success)
+	// ExitVar: the exit code is the value of this (call) variable instead of Exit
+	ExitVar string
 	IgnoreError bool // cmd-level ignore_error
 	Call        *Ref // task call instead of a probe
 	Defer       bool
@@ -215,7 +220,9 @@ func probeCmd(task string, idx int, c C) string {
 	if c.ShExtra != "" {
 		s += `"` + c.ShExtra + `"`
 	}
-	if c.Exit != 0 {
+	if c.ExitVar != "" {
+		s += "; exit {{." + c.ExitVar + "}}"
+	} else if c.Exit != 0 {
 		s += fmt.Sprintf("; exit %d", c.Exit)
 	}
 	return s
@@ -323,7 +330,7 @@ func (pg *Prog) YAML() string {
 		if len(t.Deps) > 0 {
 			b.WriteString("    deps:\n")
 			for k, d := range t.Deps {
-				b.WriteString("      - task: " + q(d.Task) + "\n")
+				b.WriteString("      - task: " + q(refName(d)) + "\n")
 				b.WriteString("        vars: " + refVars(t.Name, fmt.Sprintf("d%d", k), d) + "\n")
 				if d.Silent {
 					b.WriteString("        silent: true\n")
@@ -341,9 +348,9 @@ func (pg *Prog) YAML() string {
 				}
 				switch {
 				case c.Call != nil && c.Defer:
-					b.WriteString(pre + "defer: {task: " + q(c.Call.Task) + ", vars: " + refVars(t.Name, fmt.Sprintf("c%d%s", j, itemTmpl(c.For)), *c.Call) + "}\n")
+					b.WriteString(pre + "defer: {task: " + q(refName(*c.Call)) + ", vars: " + refVars(t.Name, fmt.Sprintf("c%d%s", j, itemTmpl(c.For)), *c.Call) + "}\n")
 				case c.Call != nil:
-					b.WriteString(pre + "task: " + q(c.Call.Task) + "\n")
+					b.WriteString(pre + "task: " + q(refName(*c.Call)) + "\n")
 					b.WriteString(cont + "vars: " + refVars(t.Name, fmt.Sprintf("c%d%s", j, itemTmpl(c.For)), *c.Call) + "\n")
 				case c.Defer:
 					b.WriteString(pre + "defer: " + q(probeCmd(t.Name, j, c)) + "\n")
@@ -360,6 +367,13 @@ func (pg *Prog) YAML() string {
 		}
 	}
 	return b.String()
+}
+
+func refName(r Ref) string {
+	if r.As != "" {
+		return r.As
+	}
+	return r.Task
 }
 
 func mapq(ss []string) []string {
@@ -511,7 +525,7 @@ loop:
 				res = StNotFinished
 				break loop
 			}
-			if c.Exit != 0 && !c.IgnoreError && !t.IgnoreError {
+			if pg.ExitOf(in, j) != 0 && !c.IgnoreError && !t.IgnoreError {
 				res = StFailed
 				break loop
 			}
@@ -567,7 +581,7 @@ func (pg *Prog) FailureBefore(ev []PE, pos int, except map[string]bool) bool {
 			continue
 		}
 		j, _ := e.CmdIndex()
-		if j < len(t.Cmds) && t.Cmds[j].Exit != 0 && !t.Cmds[j].IgnoreError && !t.IgnoreError {
+		if j < len(t.Cmds) && pg.ExitOf(e.Inst(), j) != 0 && !t.Cmds[j].IgnoreError && !t.IgnoreError {
 			return true
 		}
 	}
@@ -699,7 +713,7 @@ func (pg *Prog) EntryStatus(ti *TraceIndex, in Inst, j int, item string, pos int
 	if p < 0 || p >= pos {
 		return StNotFinished
 	}
-	if c.Exit != 0 && !c.IgnoreError && !t.IgnoreError {
+	if pg.ExitOf(in, j) != 0 && !c.IgnoreError && !t.IgnoreError {
 		return StFailed
 	}
 	return StOK
@@ -768,4 +782,20 @@ func Instances(ev []PE) (map[Inst][]PE, []Inst) {
 		m[in] = append(m[in], e)
 	}
 	return m, order
+}
+
+
+// ExitOf: the exit code of probe entry j of instance in.
+func (pg *Prog) ExitOf(in Inst, j int) int {
+	t := pg.Task(in.Task)
+	if t == nil || j >= len(t.Cmds) {
+		return 0
+	}
+	c := t.Cmds[j]
+	if c.ExitVar != "" {
+		n := 0
+		fmt.Sscanf(pg.InstVars(in)[c.ExitVar], "%d", &n)
+		return n
+	}
+	return c.Exit
 }
